@@ -23,6 +23,8 @@ def base_scenarios(rng, n):
     fixed.append(Scenario(reads([b'HTTP/1.1 404 Nope\r\n\r\n']) + [('wait', 1, ('eof',))], {}, prate=0))
     fixed.append(Scenario(reads([sc.good_reply()]) + [('wait', 0, ('data', server_frame(8, close_payload(1001, b''))))] + [('wait', 1, ('eof',))], {2: [('close', 1000, ('b', b'x'))]}, prate=0))
     fixed.append(Scenario([('wait', 1, ('eof',))], {}, conn='sockfail'))
+    fixed.append(Scenario([('wait', 1, ('eof',))], {}, wfail={0}))          # upgrade request cannot be written
+    fixed.append(Scenario([('wait', 1, ('eof',))], {0: [('close', 1000, ('b', b''))]}))     # close() at Connecting: request refused
     fixed.append(Scenario(reads([sc.good_reply()]) + [('wait', 0, ('sockerr',))], {}, prate=0))
     out += fixed
     while len(out) < n:
@@ -33,7 +35,7 @@ def base_scenarios(rng, n):
 def explore(res, tier, seed, model_ok=True):
     rng = random.Random(seed)
     nbase = 25 if tier == 'quick' else 250
-    res.rule = ('%d base scenarios (8 fixed covering every yield point of run(): Connecting, ConnectFail, Connected, housekeeping Poll, Unresponsive, Ready, messages, Closing, Closed, Rejected, ProtocolError, Disconnected; rest random) '
+    res.rule = ('%d base scenarios (10 fixed covering every yield point of run(): Connecting, ConnectFail, Connected, housekeeping Poll, Unresponsive, Ready, messages, Closing, Closed, Rejected, ProtocolError, Disconnected; rest random) '
                 'x every event index x 4 abandonment mechanisms (generator close(), break+drop, exception in handler, exception leaving a with-block); '
                 'oracle: simulated socket and selector both closed afterwards; non-trivial = abandonment at an event where a socket exists; distinct by (scenario, index, mechanism)') % nbase
     bases = base_scenarios(rng, nbase)
